@@ -9,8 +9,13 @@
    P1. "without overcommit a container that stays within its allocation is never killed", and its converse about
        REAL containers: without overcommit every failed result of a tick is the result of a running-or-new
        container of that pool whose state after its [ctick] exceeds its allocation.
-   P4. the runner of kind 25 refuses negative probabilities / a non-positive float sum (numpy raises).
-   P5. the file theorems of C13 with the hypothesis 0 < tps; the runner of kind 44 refuses tps <= 0. *)
+   P4. the runner of kind 25 answers [bad_input] outside its DOMAIN (a negative configured probability, or a
+       non-positive float sum). This is NOT numpy's validation (audit D P1, see section 7): a domain restriction.
+   P5. the file theorems of C13 with the hypothesis 0 < tps; the runner of kind 44 refuses tps <= 0 (a domain
+       restriction too: Python raises for tps = 0 only).
+   Audit D (AUDIT_D.md P2, P5): [sim_kill_justified_linked] now also carries the victim link of [oom_killer_spec]
+   (map c_id vs = firstn k (victims_order C act1), act5 = map (kill_if (map c_id vs)) act1, NoDup of the ids) and
+   [incl res (tl_results lg)]; the negations of the audit-D witnesses are in AuditRepairFacts2.v. *)
 From Coq Require Import List Arith ZArith QArith Qabs Bool Lia Lqa Sorted.
 Import ListNotations.
 From Eudoxia Require Import Num.Rnd64 Model.Types Model.Dag Model.Lifecycle Model.Timing Model.Container
@@ -115,15 +120,20 @@ Lemma kill_justified_linked C w next p ss asgs w' next' p' res :
   pool_tick C w next p ss asgs = Ok (w', next', p', res) ->
   MemoryFacts.usage_ok p -> MemoryFacts.ids_ok next p -> all_running p ->
   (cf_overcommit C = false -> ram_ok p) -> (forall a, In a asgs -> (0 <= a_ram a)%Q) ->
-  exists act2 w3 cons3 w4 cons4 act4 w1 cons1 act1 cons5 act5 vs,
+  exists act2 w3 cons3 w4 cons4 act4 w1 cons1 act1 cons5 act5 vs k,
     act2 = filter (fun c => negb (memb (c_id c) (map su_cid ss))) (p_active p) ++ new_containers next asgs /\
     act4 = map (cstep C) act2 /\
     tick_active C w3 cons3 act2 = Ok (w4, cons4, act4) /\
+    NoDup (map c_id act4) /\
     oom_killer C (p_max_ram p) w4 cons4 act4 = Ok (w', cons5, act5) /\
     p_active p' = filter (fun c => negb (c_completed c)) act5 /\
     res = map (result_of (p_id p)) (filter c_completed act5) /\
     kill_over_limit C w4 cons4 act4 = Ok (w1, cons1, act1) /\
     act1 = map (kill_when over_limit) act4 /\
+    k <= length (victims_order C act1) /\
+    map c_id vs = firstn k (victims_order C act1) /\
+    act5 = map (kill_if (map c_id vs)) act1 /\
+    (forall id, In id (ids_killed act1 act5) <-> In id (map c_id vs)) /\
     (cons4 == sumQ (map c_mem act4))%Q /\ (cons1 == sumQ (map c_mem act1))%Q /\
     (vs <> [] -> (p_max_ram p < cons1)%Q /\ cf_overcommit C = true) /\
     Forall (fun v => In v act4 /\ c_completed v = false /\
@@ -143,7 +153,7 @@ Proof.
   destruct (act4_ids _ _ _ _ _ _ _ _ _ _ _ _ _ _ _ _ _ _ I tv_p1 tv_p2 tv_p4) as (_ & ND & _).
   pose proof (act4_no_failed _ _ _ _ _ _ _ _ _ _ _ _ _ _ _ _ _ _ A tv_p1 tv_p2 tv_p4) as NF.
   destruct (oom_killer_spec _ _ _ _ _ _ _ _ ND tv_p5)
-    as (wk & consk & actk & k & vs & K1 & Ek & _ & Hids & E5 & _ & Hvs & _ & _ & Htr & _).
+    as (wk & consk & actk & k & vs & K1 & Ek & Hkl & Hids & E5 & Hkilled & Hvs & _ & _ & Htr & _).
   pose proof (kill_over_limit_spec _ _ _ _ _ _ _ K1) as (_ & Hover & _).
   rewrite Forall_forall in Hover, Hvs.
   assert (NDk : NoDup (map c_id actk)) by (rewrite Ek, map_kill_when_ids; exact ND).
@@ -172,10 +182,14 @@ Proof.
     { rewrite Ek, map_map. apply sumQ_map_le. intros c Hc. unfold kill_when.
       destruct (over_limit c) eqn:O; [cbn; apply Hn4; apply in_map; exact Hc | apply Qltb_false; exact O]. }
     lra. }
-  exists act2, w3, cons1, w4, cons4, act4, wk, consk, actk, cons5, act5, vs.
+  exists act2, w3, cons1, w4, cons4, act4, wk, consk, actk, cons5, act5, vs, k.
   split; [exact L2|]. split; [exact L4|].
-  split; [exact tv_p4|]. split; [exact tv_p5|]. split; [exact tv_active|]. split; [exact tv_res|].
-  split; [exact K1|]. split; [exact Ek|]. split; [exact H4|]. split; [exact Hcons1|].
+  split; [exact tv_p4|]. split; [exact ND|].
+  split; [exact tv_p5|]. split; [exact tv_active|]. split; [exact tv_res|].
+  split; [exact K1|]. split; [exact Ek|].
+  split; [exact Hkl|]. split; [exact Hids|]. split; [rewrite Hids; exact E5|].
+  split; [intros id; rewrite Hids; apply Hkilled|].
+  split; [exact H4|]. split; [exact Hcons1|].
   split; [intros Hne; split; [apply Hgt|apply Hoc]; exact Hne|].
   split; [apply Forall_forall; exact Hvs4|].
   intros r Hr Herr. rewrite tv_res in Hr. apply in_map_iff in Hr. destruct Hr as (c5 & <- & Hc5).
@@ -210,6 +224,23 @@ Qed.
 (* 3. P2 and P1 for every tick of every run                                                      *)
 (* ------------------------------------------------------------------------------------------ *)
 
+(* [SimCorollaryFacts.sim_tick_result_pool] with one more clause: the results of the pool are results of the tick *)
+Lemma sim_tick_result_pool_incl C a t s newp s' lg r :
+  sim_tick C a t s newp = Ok (s', lg) -> In r (tl_results lg) ->
+  exists w0 i p p' res,
+    mk_assignments C (e_world (sm_exec s)) (tl_asgs lg) = Ok w0 /\
+    nth_error (e_pools (sm_exec s)) i = Some p /\ nth_error (e_pools (sm_exec s')) i = Some p' /\
+    In r res /\ incl res (tl_results lg) /\
+    ptick C (tl_susp lg) (tl_asgs lg) w0 (e_next (sm_exec s)) (e_world (sm_exec s')) p (p', res).
+Proof.
+  intros H Hr. destruct (sim_tick_pools _ _ _ _ _ _ _ H) as (w0 & xs & M & F & E1 & E2 & _).
+  rewrite E2 in Hr. apply in_flat_map in Hr. destruct Hr as ([p' res] & Hx & Hr). cbn [snd] in Hr.
+  destruct (Forall2_in_r' _ _ _ F _ Hx) as (i & p & A1 & A2 & A3).
+  exists w0, i, p, p', res. split; [exact M|]. split; [exact A1|].
+  split; [rewrite E1, nth_error_map, A2; reflexivity|]. split; [exact Hr|]. split; [|exact A3].
+  rewrite E2. intros x Hx'. apply in_flat_map. exists (p', res). split; [exact Hx|exact Hx'].
+Qed.
+
 Section Sim.
 Variable C : cfg.
 Variable a : algo.
@@ -219,7 +250,9 @@ Hypothesis SN : script_nonneg C.
 Hypothesis Hram : (0 <= ram)%Q.
 
 (* P2 (C04): every OOM failure reported in any tick of any run is justified, and the containers the
-   justification speaks about are the containers of the pool *)
+   justification speaks about are the containers of the pool. Audit D (P2, P5): [vs], [next], [res] are tied to the
+   run as in [sim_kills_linked] - distinct ids in [act4], the ids of [vs] are the first [k] of the candidate order,
+   [act5] is [act1] with exactly [vs] killed, and the results of the pool are results of the tick *)
 Theorem sim_kill_justified_linked t s newp s' lg :
   sim_reach C a 0%Z (init_sim C np cpu ram) t s ->
   sim_tick C a t s newp = Ok (s', lg) ->
@@ -229,16 +262,21 @@ Theorem sim_kill_justified_linked t s newp s' lg :
     let asgs := filter (fun x => (a_pool x =? Z.of_nat (p_id p))%Z) (tl_asgs lg) in
     nth_error (e_pools (sm_exec s)) i = Some p /\ nth_error (e_pools (sm_exec s')) i = Some p' /\
     e_next (sm_exec s) <= next /\
-    pool_tick C w next p ss asgs = Ok (w', next', p', res) /\ In r res /\
-    exists act2 w3 cons3 w4 cons4 act4 w1 cons1 act1 cons5 act5 vs,
+    pool_tick C w next p ss asgs = Ok (w', next', p', res) /\ In r res /\ incl res (tl_results lg) /\
+    exists act2 w3 cons3 w4 cons4 act4 w1 cons1 act1 cons5 act5 vs k,
       act2 = filter (fun c => negb (memb (c_id c) (map su_cid ss))) (p_active p) ++ new_containers next asgs /\
       act4 = map (cstep C) act2 /\
       tick_active C w3 cons3 act2 = Ok (w4, cons4, act4) /\
+      NoDup (map c_id act4) /\
       oom_killer C (p_max_ram p) w4 cons4 act4 = Ok (w', cons5, act5) /\
       p_active p' = filter (fun c => negb (c_completed c)) act5 /\
       res = map (result_of (p_id p)) (filter c_completed act5) /\
       kill_over_limit C w4 cons4 act4 = Ok (w1, cons1, act1) /\
       act1 = map (kill_when over_limit) act4 /\
+      k <= length (victims_order C act1) /\
+      map c_id vs = firstn k (victims_order C act1) /\
+      act5 = map (kill_if (map c_id vs)) act1 /\
+      (forall id, In id (ids_killed act1 act5) <-> In id (map c_id vs)) /\
       (cons4 == sumQ (map c_mem act4))%Q /\ (cons1 == sumQ (map c_mem act1))%Q /\
       (vs <> [] -> (p_max_ram p < cons1)%Q /\ cf_overcommit C = true) /\
       Forall (fun v => In v act4 /\ c_completed v = false /\
@@ -251,18 +289,20 @@ Theorem sim_kill_justified_linked t s newp s' lg :
                    (p_max_ram p < cons1 - sumQ (map c_mem (firstn j vs)))%Q).
 Proof.
   intros R T r Hr Herr.
-  destruct (sim_tick_result_pool _ _ _ _ _ _ _ _ T Hr) as (w0 & i & p & p' & res & M & Hi & Hi' & Hin & P).
+  destruct (sim_tick_result_pool_incl _ _ _ _ _ _ _ _ T Hr)
+    as (w0 & i & p & p' & res & M & Hi & Hi' & Hin & Hinc & P).
   destruct P as (w & n & w' & n' & Ln & _ & _ & PT). cbn [fst snd] in PT.
   pose proof (sim_pool_inv C a np cpu ram Ex SN Hram _ _ R) as J. rewrite Forall_forall in J.
   pose proof (MemoryFacts.pool_inv_mono C _ _ p Ln (J p (nth_error_In _ _ Hi))) as (U & I & A & _ & _ & _ & _ & RO).
   assert (Hasg : forall x, In x (mine_a p (tl_asgs lg)) -> (0 <= a_ram x)%Q).
   { intros x Hx. apply filter_In in Hx. apply Qlt_le_weak. eapply mk_assignments_ram; [exact M|tauto]. }
   destruct (kill_justified_linked _ _ _ _ _ _ _ _ _ _ Ex PT U I A RO Hasg)
-    as (act2 & w3 & cons3 & w4 & cons4 & act4 & w1 & cons1 & act1 & cons5 & act5 & vs & B).
-  destruct B as (B1 & B2 & B3 & B4 & B5 & B6 & B7 & B8 & B9 & B10 & B11 & B12 & B13).
+    as (act2 & w3 & cons3 & w4 & cons4 & act4 & w1 & cons1 & act1 & cons5 & act5 & vs & k & B).
+  destruct B as (B1 & B2 & B3 & B3' & B4 & B5 & B6 & B7 & B8 & B8a & B8b & B8c & B8d & B9 & B10 & B11 & B12 & B13).
   exists i, p, p', w, n, w', n', res. cbv zeta.
   split; [exact Hi|]. split; [exact Hi'|]. split; [exact Ln|]. split; [exact PT|]. split; [exact Hin|].
-  exists act2, w3, cons3, w4, cons4, act4, w1, cons1, act1, cons5, act5, vs.
+  split; [exact Hinc|].
+  exists act2, w3, cons3, w4, cons4, act4, w1, cons1, act1, cons5, act5, vs, k.
   repeat (split; [assumption|]). apply B13; assumption.
 Qed.
 
@@ -284,9 +324,10 @@ Theorem sim_failure_is_own_limit_without_overcommit t s newp s' lg :
 Proof.
   intros R T Ho r Hr Herr.
   destruct (sim_kill_justified_linked _ _ _ _ _ R T r Hr Herr)
-    as (i & p & p' & w & next & w' & next' & res & Hi & _ & Ln & _ & _ & B). cbv zeta in B.
-  destruct B as (act2 & w3 & cons3 & w4 & cons4 & act4 & w1 & cons1 & act1 & cons5 & act5 & vs & B).
-  destruct B as (L2 & L4 & _ & _ & _ & _ & _ & _ & _ & _ & _ & _ & c4 & Hc4 & Hc0 & Er & [Hl|[Hoc _]]);
+    as (i & p & p' & w & next & w' & next' & res & Hi & _ & Ln & _ & _ & _ & B). cbv zeta in B.
+  destruct B as (act2 & w3 & cons3 & w4 & cons4 & act4 & w1 & cons1 & act1 & cons5 & act5 & vs & k & B).
+  destruct B as (L2 & L4 & _ & _ & _ & _ & _ & _ & _ & _ & _ & _ & _ & _ & _ & _ & _ &
+                 c4 & Hc4 & Hc0 & Er & [Hl|[Hoc _]]);
     [|congruence].
   rewrite L4 in Hc4. apply in_map_iff in Hc4. destruct Hc4 as (c & <- & Hc).
   rewrite L2 in Hc. apply in_act2 in Hc.
@@ -633,8 +674,10 @@ Theorem file_malformed_never_delivered : forall (rnd : Q -> Q) tps n rows e, (0 
         last (fst (lazy_batches rows)) [] ++ last (arrival_groups l) [].
 Proof. intros rnd tps n rows e _. apply TraceFileFacts.file_malformed_never_delivered. Qed.
 
-(* the runner of kind 44: the first integer of a case is ticks_per_second; a case with tps <= 0 is answered [-1]
-   (WorkloadTrace.__init__ raises ZeroDivisionError for 0; a negative rate is no configuration) *)
+(* the runner of kind 44: the first integer of a case is ticks_per_second; a case with tps <= 0 is answered [-1].
+   This is a domain restriction of the runner: WorkloadTrace.__init__ raises ZeroDivisionError for tps = 0 only;
+   for tps < 0 Python does NOT raise. Kind 44 is driven with tps >= 1 only, so the refusal is never compared with
+   the implementation (audit D, MINOR) *)
 Theorem run_trace_file_refuses_nonpositive_tps : forall tps rest,
   (tps <= 0)%Z -> run_trace_file (tps :: rest) = bad_input.
 Proof.
@@ -666,8 +709,19 @@ Proof. split; apply run_trace_file_refuses_nonpositive_tps; lia. Qed.
 End FilePos.
 
 (* ------------------------------------------------------------------------------------------ *)
-(* 7. P4: the runner of kind 25 refuses what numpy's choice refuses                              *)
+(* 7. P4: the DOMAIN of the runner of kind 25                                                    *)
 (* ------------------------------------------------------------------------------------------ *)
+(* The guard of [run_gen_u], [forallb (0 <=) user && 0 < fsum user], evaluated for EVERY input on the RAW triple, is
+   NOT numpy's validation (audit D P1). Python divides by np.sum first (workload.py:89) and Generator.choice
+   validates the QUOTIENTS, and only when a class is drawn:
+     - (-1/4, -1/4, -1/2) normalises to (1/4, 1/4, 1/2) and is ACCEPTED by the real generator; the runner refuses;
+     - (-1/2, 1, 1/2) raises in numpy ("not non-negative") - but only at the first class draw: with
+       num_pipelines = 0 or no tick nothing raises; the runner refuses always;
+     - the other way: 3 x 2^1023 overflows np.sum, numpy refuses; the runner accepts (outside the rnd64 domain).
+   The guard is therefore stated as what it is: a domain restriction of the runner, narrower than numpy on
+   negative triples. It is harmless because the correspondence check only produces non-negative triples with a
+   positive sum, and on that domain guard and numpy agree ([AuditRepairFacts2.GenDomain.domain_agrees]: the
+   quotients are non-negative, not NaN, and their float cdf ends in exactly 1, so numpy's validation passes). *)
 From Eudoxia Require Import Model.Generator Model.RunGen.
 
 Module GenRefuse.
@@ -680,9 +734,9 @@ Proof.
 Qed.
 
 (* the case of kind 25 on the wire: num_pipelines, num_operators (2), cpu_io_ratio (2), waiting_ticks_mean,
-   nticks, interactive_prob (2), query_prob (2), batch_prob (2), the stream. The runner answers [-1] as soon as one
-   of the three probabilities is negative, or their float sum (a0 + a1) + a2 is not positive *)
-Theorem run_gen_u_refuses_negative :
+   nticks, interactive_prob (2), query_prob (2), batch_prob (2), the stream. OUTSIDE ITS DOMAIN - one of the three
+   probabilities negative, or their float sum (a0 + a1) + a2 not positive - the runner answers [-1] *)
+Theorem run_gen_u_domain :
   forall np an ad rn rd wmean nticks i_n i_d q_n q_d b_n b_d stream,
   (i_n < 0 \/ q_n < 0 \/ b_n < 0 \/
    ~ (0 < fsum [Qmake i_n (Z.to_pos i_d); Qmake q_n (Z.to_pos q_d); Qmake b_n (Z.to_pos b_d)])%Q) ->
@@ -725,17 +779,17 @@ Proof.
 Qed.
 
 (* the inputs of AuditExamplesC.C15.negative_probability_is_not_refused (-1/2, 1, 1/2): [gen_run_u] draws classes,
-   the runner - what the correspondence check compares with the implementation - refuses them *)
+   the runner answers [-1]: the triple is outside its domain (here numpy would raise too, at the first class draw) *)
 Example refuses_minus_half :
   run_gen_u [2; 3; 1; 1; 2; 2; 1;  -1; 2;  1; 1;  1; 2;  4;  2; 1; 5;  2; 7; 10;  1; 3; 1; 6; 5;  1; 2; 1; 2; 5]
   = bad_input.
-Proof. apply run_gen_u_refuses_negative. left. reflexivity. Qed.
+Proof. apply run_gen_u_domain. left. reflexivity. Qed.
 
-(* all three zero: the float sum is 0 (numpy: probabilities do not sum to 1 / NaN after the division) *)
+(* all three zero: the float sum is 0, outside the domain (numpy, when a class is drawn: "probabilities contain NaN") *)
 Example refuses_zero_sum : forall stream,
   run_gen_u (2 :: 3 :: 1 :: 1 :: 2 :: 2 :: 1 :: 0 :: 1 :: 0 :: 1 :: 0 :: 1 :: stream) = bad_input.
 Proof.
-  intros stream. apply run_gen_u_refuses_negative. right. right. right. vm_compute. discriminate.
+  intros stream. apply run_gen_u_domain. right. right. right. vm_compute. discriminate.
 Qed.
 
 End GenRefuse.
